@@ -527,6 +527,45 @@ def check(inp):
                     [float(v[0] / c0), float(v[-1] / c0)], f"[1, 0] within {TOL_NUMERIC}")
         return None
 
+    if c == "origin-numeric-nonuniform":
+        # the lags are the user's: dense near the origin, sparse in the tail - same function as on a regular grid
+        m = mk(model, params)
+        ell = length_of(model, params, m)
+        r = np.concatenate([np.linspace(0, ell / 2, 51), np.linspace(ell / 2, 40 * ell, 80)[1:]])
+        v = np.asarray(m.autocorrelation_function(r), dtype=float)
+        ru = np.linspace(0, 40 * ell, 4001)
+        vu = np.interp(r, ru, np.asarray(m.autocorrelation_function(ru), dtype=float))
+        dev = float(np.max(np.abs(v - vu)))
+        if not abs(v[0] - c0) <= TOL_NUMERIC * c0 or not abs(v[-1]) <= TOL_NUMERIC * c0 or not dev <= TOL_NUMERIC * c0:
+            return (CLASSES[model][0] + ":acf-numeric", f"{CLASSES[model][0]}: numerically provided autocorrelation on a non-uniform lag grid "
+                    f"(lag 0, lag 40 lengths, largest deviation from the regular-grid values)", [float(v[0] / c0), float(v[-1] / c0), dev / c0],
+                    f"[1, 0, 0] within {TOL_NUMERIC}")
+        return None
+
+    if c == "args-untouched":
+        # the wavenumbers / lags handed in are inputs: the same array evaluated again gives the same values
+        m = mk(model, params)
+        ell = length_of(model, params, m)
+        out = []
+        for nm, arr in (("ft_autocorrelation_function", np.linspace(0.0, 20.0, 41) / ell), ("autocorrelation_function", np.linspace(0.0, 10.0, 41) * ell)):
+            fn = getattr(m, nm, None)
+            if fn is None:
+                continue
+            keep_ = arr.copy()
+            try:
+                first = np.array(fn(arr), dtype=float)
+            except (AttributeError, NotImplementedError):
+                continue
+            if not np.array_equal(arr, keep_):
+                return (CLASSES[model][0] + ":argument-modified", f"{CLASSES[model][0]}.{nm} overwrote the array it was given",
+                        [float(arr[1]), float(keep_[1])], "argument unchanged")
+            second = np.array(fn(arr), dtype=float)
+            if not np.array_equal(first, second, equal_nan=True):
+                out.append(nm)
+        if out:
+            return (CLASSES[model][0] + ":argument-modified", f"{CLASSES[model][0]}: {out} evaluated twice on the same array differ", out, "equal")
+        return None
+
     if c == "tail":
         m = mk(model, params)
         ell = length_of(model, params, m)
@@ -773,6 +812,11 @@ def oracle(ctx, hints, effort):
             cases.append({"check": "pair-numeric-acf", "model": model, "params": p, "j": int(rng.integers(0, 200))})
     for _ in range(1 if effort == "routine" else 4):
         cases.append({"check": "pair-numeric-ft", "model": "grf", "params": rparams(rng, "grf"), "k_len": float(np.round(rng.uniform(0, 3), 2))})
+    cases.append({"check": "origin-numeric-nonuniform", "model": "shs", "params": [0.4, 5e-4, 1000.0]})
+    cases.append({"check": "origin-numeric-nonuniform", "model": "ushs", "params": [0.3, 3e-4, 1.2]})
+    for model in order:
+        if model not in ("hom", "samp"):
+            cases.append({"check": "args-untouched", "model": model, "params": rparams(rng, model)})
 
     for model, num in (("grf", False), ("exp", True), ("sph", True)):
         for _ in range(1 if effort == "routine" else 4):
